@@ -524,14 +524,16 @@ func reapplyOverwrittenContainers(finalPod *corev1.Pod, originalPod *corev1.Pod,
 		parsedInjectedStatus = parseStatus(status)
 	}
 	for _, c := range templatePod.Spec.Containers {
-		// sidecarStatus annotation is added on the pod by webhook. We should use new container template
-		// instead of restoring what may be previously injected. Doing this ensures we are correctly calculating
-		// env variables like ISTIO_META_APP_CONTAINERS and ISTIO_META_POD_PORTS.
-		if match := FindContainer(c.Name, parsedInjectedStatus.Containers); match != nil {
-			continue
-		}
+		// The user's overrides recorded in the overrides annotation are always re-applied, also on re-injection:
+		// the template was just merged on top of the pod and would otherwise revert them.
 		match := FindContainer(c.Name, existingOverrides.Containers)
 		if match == nil {
+			// sidecarStatus annotation is added on the pod by webhook. We should use new container template
+			// instead of restoring what may be previously injected. Doing this ensures we are correctly calculating
+			// env variables like ISTIO_META_APP_CONTAINERS and ISTIO_META_POD_PORTS.
+			if injected := FindContainer(c.Name, parsedInjectedStatus.Containers); injected != nil {
+				continue
+			}
 			match = FindContainer(c.Name, originalPod.Spec.Containers)
 		}
 		if match == nil {
@@ -550,11 +552,11 @@ func reapplyOverwrittenContainers(finalPod *corev1.Pod, originalPod *corev1.Pod,
 		finalPod = newMergedPod
 	}
 	for _, c := range templatePod.Spec.InitContainers {
-		if match := FindContainer(c.Name, parsedInjectedStatus.InitContainers); match != nil {
-			continue
-		}
 		match := FindContainer(c.Name, existingOverrides.InitContainers)
 		if match == nil {
+			if injected := FindContainer(c.Name, parsedInjectedStatus.InitContainers); injected != nil {
+				continue
+			}
 			match = FindContainerFromPod(c.Name, originalPod)
 		}
 		if match == nil {
